@@ -511,19 +511,88 @@ def _global_declaration_rule(ctx, res, rule: str = "R07.12") -> None:
                         return True
         return False
 
-    cfg = CFG(f.node)
-    truthy = [nd for nd in cfg.nodes if nd.kind == "stmt" and isinstance(nd.ast, ast.Return) and nd.ast.value is not None
-              and not (isinstance(nd.ast.value, ast.Constant) and not nd.ast.value.value)
-              and (any(isinstance(y, ast.Compare) and isinstance(y.ops[0], ast.In) for y in ast.walk(nd.ast.value))
-                   or any(pol and isinstance(t, ast.Compare) and isinstance(t.ops[0], ast.In) for t, pol in cfg.guards(nd.id)))]
-    if not truthy:
+    # the predicates that make the distinction stay calls; every other private step is read in place
+    from . import common
+    predicates = {n_ for n_, m_ in cls.methods.items() if m_ is not f and distinguishes(m_, depth=2)}
+    fnode = common.inline_private_calls(idx, f, keep=tuple(predicates))
+    # a private step that ANSWERS (its call is the test of an `if`, so it is not read in place) is judged on its own returns
+    bodies = [fnode]
+    seen_steps = set()
+    frontier = [fnode]
+    while frontier:
+        b = frontier.pop()
+        for c in ast.walk(b):
+            if isinstance(c, ast.Call) and is_self_attr(c.func) and c.func.attr in cls.methods and c.func.attr not in predicates \
+                    and c.func.attr not in seen_steps and c.func.attr != f.name and c.func.attr.startswith("_"):
+                seen_steps.add(c.func.attr)
+                step = common.inline_private_calls(idx, cls.methods[c.func.attr], keep=tuple(predicates))
+                bodies.append(step)
+                frontier.append(step)
+    n = 0
+    for fnode in bodies:
+        n = _global_declaration_sites(res, rule, f, fnode, predicates, n)
+    if n == 0:
         raise AnalysisError("anchor=_LocalUnboundNameFinder.is_bound: answer by membership in the scope's names not found")
-    ok = distinguishes(f)
-    res.add(rule, "_LocalUnboundNameFinder.is_bound|global-declarations", ok, f.where,
-            "membership in the local name table is qualified by a test for global declarations" if ok else
-            "_LocalUnboundNameFinder.is_bound answers 'bound locally' for every name in the function's name table, which also holds the names the "
-            "function declares `global`: `global os` + `os.getcwd()` in a function is not counted as a use of the module-level `import os`, and "
-            "organize_imports removes the import (NameError at run time)", function=f.qualname)
+
+
+def _global_declaration_sites(res, rule, f, fnode, predicates, n: int) -> int:
+    from ..cfg import CFG
+    cfg = CFG(fnode)
+
+    def facts(t, pol, depth=0):
+        if depth > 6:
+            return
+        if isinstance(t, ast.UnaryOp) and isinstance(t.op, ast.Not):
+            yield from facts(t.operand, not pol, depth + 1)
+        elif isinstance(t, ast.BoolOp) and ((isinstance(t.op, ast.And) and pol) or (isinstance(t.op, ast.Or) and not pol)):
+            for v in t.values:
+                yield from facts(v, pol, depth + 1)
+        else:
+            yield t, pol
+
+    looked_up = {tg.id for a in walk_local(fnode) if isinstance(a, ast.Assign) and isinstance(a.value, ast.Call) and call_name(a.value) == "get"
+                 for tg in a.targets if isinstance(tg, ast.Name)}
+
+    def is_membership(t, pol) -> bool:
+        if isinstance(t, ast.Compare) and len(t.ops) == 1 and isinstance(t.ops[0], ast.In) and pol:
+            return True
+        if isinstance(t, ast.Compare) and len(t.ops) == 1 and isinstance(t.ops[0], (ast.IsNot, ast.Is)) and isinstance(t.comparators[0], ast.Constant) \
+                and t.comparators[0].value is None and ((isinstance(t.left, ast.Name) and t.left.id in looked_up) or (isinstance(t.left, ast.Call) and call_name(t.left) == "get")):
+            return pol == isinstance(t.ops[0], ast.IsNot)
+        return False
+
+    def is_distinction(t, pol) -> bool:
+        if isinstance(t, ast.Call) and is_self_attr(t.func) and t.func.attr in predicates:
+            return not pol
+        if isinstance(t, ast.Compare) and len(t.ops) == 1 and isinstance(t.ops[0], (ast.Is, ast.IsNot)) and not isinstance(t.comparators[0], ast.Constant):
+            return pol == isinstance(t.ops[0], ast.IsNot)  # `module_names.get(name) is not pyname`
+        return False
+
+    # the places where "bound here" is decided: a truthy return, or a binding of the local that a truthy return tests
+    sites = []
+    for nd in cfg.nodes:
+        if nd.kind != "stmt" or nd.ast is None:
+            continue
+        if isinstance(nd.ast, ast.Return) and nd.ast.value is not None and not (isinstance(nd.ast.value, ast.Constant) and not nd.ast.value.value):
+            conds = list(cfg.guards(nd.id)) + ([] if isinstance(nd.ast.value, ast.Constant) else list(facts(nd.ast.value, True)))
+            tested = [t.id for t, pol in conds if isinstance(t, ast.Name) and pol]
+            sites.append((nd, [c for c in conds if not (isinstance(c[0], ast.Name) and c[0].id in tested)]))
+            for d in cfg.nodes:
+                if d.kind == "stmt" and isinstance(d.ast, ast.Assign) and any(isinstance(tg, ast.Name) and tg.id in tested for tg in d.ast.targets) \
+                        and not (isinstance(d.ast.value, ast.Constant) and not d.ast.value.value):
+                    sites.append((d, list(cfg.guards(d.id)) + list(facts(d.ast.value, True))))
+    for nd, conds in sites:
+        flat = [(t2, p2) for t, pol in conds for t2, p2 in facts(t, pol)]
+        if not any(is_membership(t, pol) for t, pol in flat):
+            continue
+        n += 1
+        ok = any(is_distinction(t, pol) for t, pol in flat)
+        res.add(rule, f"_LocalUnboundNameFinder.is_bound|global-declarations#{n}", ok, f"{f.unit.rel}:{nd.lineno}",
+                "membership in the local name table is qualified by a test for global declarations" if ok else
+                f"_LocalUnboundNameFinder.is_bound answers 'bound locally' at `{ast.unparse(nd.ast)[:70]}` for every name in the function's name table (here: without the test for "
+                "global declarations), and the table also holds the names the function declares `global`: `global os` + a use of `os` in a nested function is not counted as a use "
+                "of the module-level `import os`, and organize_imports removes the import (NameError at run time)", function=f.qualname)
+    return n
 
 
 def _import_rewriter_lines_rule(ctx, res, rule: str = "R07.13") -> None:
